@@ -135,6 +135,82 @@ def run_tlc_replay(run, name, module, cfg_kwargs, prop, workers=4, threads=8, ti
     return tlc, summ
 
 
+def run_record_validate(run, name, driver, trace_module, prop, site, rounds, shards=8, timeout=1500, extra_args=()):
+    """impl -> spec: `rv record --driver ...` writes ndjson traces (one per shard, different seeds); TLC validates each
+    against `trace_module`.  A rejected trace becomes a violation whose replay file is the trace prefix."""
+    import concurrent.futures
+    d = run.dir
+    cfg = os.path.join(d, name + ".trace.cfg")
+    write_cfg(cfg, spec="Spec", postcondition="Accepted")
+    t0 = time.time()
+
+    def one(shard):
+        trace = os.path.join(d, "%s-%d.ndjson" % (name, shard))
+        cmd = [RV, "record", "--driver", driver, "--out", trace, "--rounds", str(rounds),
+               "--seed", str(run.seed * 1000 + shard)] + list(extra_args)
+        r = subprocess.run(cmd, capture_output=True, text=True, env=rv_env(), timeout=timeout)
+        m = re.search(r"RV-RECORDED (\d+)", r.stdout)
+        if r.returncode != 0 or not m:
+            raise ToolError("%s: recorder failed: %s" % (name, (r.stdout + r.stderr)[-1500:]))
+        events = int(m.group(1))
+        env = tlc_env()
+        env["TRACE"] = trace
+        env["VERIF_GEN"] = os.path.join(WORK, "gen")
+        meta = os.path.join(d, "meta-%s-%d" % (name, shard))
+        r = subprocess.run(["timeout", str(timeout), "tlc", "-workers", "1", "-noGenerateSpecTE", "-metadir", meta, "-cleanup",
+                            "-config", cfg, trace_module], cwd=SPEC, env=env, capture_output=True, text=True)
+        shutil.rmtree(meta, ignore_errors=True)
+        out = r.stdout
+        open(trace + ".tlc.log", "w").write(out)
+        m = re.search(r'<<"TRACE-RESULT", (\d+), (\d+)>>', out)
+        if not m:
+            errs = [l for l in out.split("\n") if "rror" in l][:6]
+            raise ToolError("%s: TLC trace validation produced no result: %s" % (name, " | ".join(errs)))
+        consumed, total = int(m.group(1)), int(m.group(2))
+        fail = re.search(r'<<\s*"TRACE-FAIL",\s*(\d+),\s*"([^"]*)"\s*>>', out)
+        st = TLC_STATS.search(out)
+        for km in re.finditer(r'<<"TRACE-KNOWN", "(F\d+)", (\d+)>>', out):
+            run.trace_known[km.group(1)] = run.trace_known.get(km.group(1), 0) + 1
+        return dict(trace=trace, events=events, consumed=consumed, total=total,
+                    fail=(int(fail.group(1)), fail.group(2)) if fail else None,
+                    states=int(st.group(2)) if st else 0, transitions=int(st.group(1)) if st else 0)
+
+    with concurrent.futures.ThreadPoolExecutor(max_workers=min(shards, NCPU)) as ex:
+        results = list(ex.map(one, range(shards)))
+    summ = {"property": prop, "behaviours": 0, "events": 0, "compared": 0, "nontrivial": 0, "violations": [], "violation_count": 0,
+            "drift_count": 0, "drift_samples": [], "samples": [], "notes": {}}
+    states = trans = 0
+    for r in results:
+        summ["events"] += r["events"]
+        summ["compared"] += r["consumed"]
+        states += r["states"]; trans += r["transitions"]
+        lines = open(r["trace"], encoding="utf-8").read().split("\n")
+        rounds_n = sum(1 for l in lines if '"ev":"reset"' in l)
+        summ["behaviours"] += rounds_n
+        summ["nontrivial"] += rounds_n
+        if not summ["samples"] and len(lines) > 3:
+            summ["samples"].append({"trace_module": trace_module, "first_events": [json.loads(l) for l in lines[:4] if l]})
+        if r["consumed"] < r["total"]:
+            k = r["consumed"] + 1          # 1-based line that was not accepted
+            # cut the replay at the enclosing round
+            start = k - 1
+            while start > 0 and '"ev":"reset"' not in lines[start]:
+                start -= 1
+            os.makedirs(run.replay_dir, exist_ok=True)
+            rp = os.path.join(run.replay_dir, "%s-trace-%d.ndjson" % (name, len(summ["violations"])))
+            open(rp, "w", encoding="utf-8").write("\n".join(lines[start:k]) + "\n")
+            msg = r["fail"][1] if r["fail"] else "event not allowed by the specification"
+            summ["violation_count"] += 1
+            summ["violations"].append({"site": site, "what": "trace %s rejected at event %d: %s :: %s"
+                                       % (os.path.basename(r["trace"]), k, msg, lines[k - 1][:600]),
+                                       "replay": rp, "case": {"event": json.loads(lines[k - 1]) if lines[k - 1] else None}})
+        else:
+            run.traces_validated += rounds_n
+    tlc = {"name": name, "states": states, "transitions": trans, "ok": True, "error": None, "violated": None,
+           "wall_s": round(time.time() - t0, 1)}
+    return tlc, summ
+
+
 def rv_env():
     env = dict(os.environ)
     env["VERIF_GEN"] = os.path.join(WORK, "gen")
@@ -169,6 +245,7 @@ class Run:
         self.model_violations = []
         self.traces_validated = 0
         self.extra = {}
+        self.trace_known = {}   # known findings the trace specifications accepted explicitly
         self.sites = None      # violation sites that belong to this property (None = all)
         self.assumptions = []
         self.rule = ""
@@ -211,6 +288,7 @@ def finish(run):
     pid = run.pid
     known = load_known()
     viols, known_hits, other_sites = [], {}, {}
+    rc_extra = []
     total_viol = 0
     for s in run.summaries:
         total_viol += s["violation_count"]
@@ -231,6 +309,14 @@ def finish(run):
         unclassified = 0   # the per-site split of unstored violations is unknown; stored ones decide
     for site, n in other_sites.items():
         log("NOTE: %d stored violation(s) at site '%s' belong to another property's check" % (n, site))
+    for kid, n in run.trace_known.items():
+        k = next((x for x in known if x["id"] == kid and x.get("status") == "known"), None)
+        if k is None:
+            log("VIOLATION property=%s replay=-" % pid)
+            log("   trace specification accepted %s as a known finding, but known_findings.json does not list it as known" % kid)
+            rc_extra.append(1)
+        else:
+            known_hits.setdefault(kid, [k, 0])[1] += n
     for kid, (k, n) in known_hits.items():
         log("KNOWN-FINDING: property=%s %s (%d occurrence(s) this run)" % (pid, k["what"], n))
     rc = 0
@@ -280,6 +366,8 @@ def finish(run):
     os.makedirs(os.path.join(VERIF, "evidence"), exist_ok=True)
     with open(os.path.join(VERIF, "evidence", pid + ".json"), "w", encoding="utf-8") as f:
         json.dump(ev, f, ensure_ascii=False, indent=1)
+    if rc_extra:
+        rc = 1
     if run.model_violations and rc == 0:
         rc = 2
     if rc == 0:
